@@ -136,8 +136,8 @@ def _same(a, b):
 # history generation
 # ------------------------------------------------------------------------------------------------
 BADVALS = ["abc", None, [1.0], "1e", ""]
-LABELS_OK = ["a", "ct 1", "  padded  ", "x_2", "1a", "_u", "a{b}c", "p:q,r=s", ""]
-LABELS_BAD = [5, None, "é", "123", "0", b"x"]
+LABELS_OK = ["a", "ct 1", "  padded  ", "x_2", "1a", "_u", "a{b}c", "p:q,r=s", "", " a1\t", "1 2", "   "]
+LABELS_BAD = [5, None, "é", "123", "0", b"x", " 26 ", "\t7\n", "3 ", " é ", 1.5, ["a"]]
 
 
 def gen_history(rng, cls):
